@@ -1,4 +1,5 @@
 import Exetera.Lemmas.MapValidBasic
+import Exetera.Lemmas.MapValidWindow
 /-! Helper lemmas for C04, part 2: the non-indexed stream (`ordered_map_valid_partial`, the sub-chunk body, the map-chunk
     loop) against `Spec.mapSpec`. Core Lean only. -/
 namespace Exetera.MapValid
@@ -211,7 +212,7 @@ def SubPost {α} (src : List α) (map_ : List Int) (inv : Int) (empty : α) (s e
 
 theorem subBody_spec {α} (src : List α) (map_ : List Int) (inv : Int) (empty : α) (s e : Nat) (buf : List α)
     (hse : s < e) (he : e ≤ map_.length) (hb : e ≤ buf.length)
-    (hr : InRange src.length map_ inv) (hm : ValidMonotone map_ inv) :
+    (hr : InRange src.length map_ inv) (hm : MonoOn map_ inv s e) :
     ∃ buf', subBody src map_ inv empty (s, e) buf = .ok buf' ∧ SubPost src map_ inv empty s e buf buf' := by
   obtain ⟨d, hd, hcase⟩ := extents_spec map_ s e inv hse he
   rcases hcase with ⟨hinv, hall⟩ | ⟨hne, hne2, p0, p1, hp0, hp01, hp1, hm0, hm1, hbetween⟩
@@ -239,7 +240,7 @@ theorem subBody_spec {α} (src : List α) (map_ : List Int) (inv : Int) (empty :
       (by
         intro p k hp1' hp2' hpk hkinv
         obtain ⟨hb1, hb2⟩ := hbetween p k hp1' hp2' hpk hkinv
-        exact ⟨hm p0 p d.1 k hb1 hm0 hpk hne hkinv, hm p p1 k d.2 hb2 hpk hm1 hkinv hne2⟩)
+        exact ⟨hm p0 p d.1 k hp0 hb1 hp2' hm0 hpk hne hkinv, hm p p1 k d.2 hp1' hb2 hp1 hpk hm1 hkinv hne2⟩)
     refine ⟨buf', ?_, hlen, hout, hin⟩
     simp only [subBody, hd, hne']
     exact hrun
@@ -264,21 +265,22 @@ theorem validMonotone_slice {m : List Int} {inv : Int} (h : ValidMonotone m inv)
     · simp at hj
   · simp at hi
 
-/-- all sub-chunks of one map chunk: every position of the chunk holds the specified row afterwards -/
+/-- all sub-chunks of one map chunk: every position of the chunk holds the specified row afterwards — for any in-range
+    map (the splitter makes every sub-chunk non-decreasing) -/
 theorem chunk_fold_spec {α} (src : List α) (map_ : List Int) (inv : Int) (cs : Nat) (empty : α) (buf : List α)
     (hcs : 1 ≤ cs) (hb : map_.length ≤ buf.length)
-    (hr : InRange src.length map_ inv) (hm : ValidMonotone map_ inv) :
+    (hr : InRange src.length map_ inv) :
     ∃ subs buf', subchunks map_ inv cs = .ok subs ∧ foldE (subBody src map_ inv empty) subs buf = .ok buf' ∧
       buf'.length = buf.length ∧
       (∀ (p : Nat) (k : Int), map_[p]? = some k → ∃ v, lookup src inv empty k = some v ∧ buf'[p]? = some v) := by
-  obtain ⟨subs, hsubs, htiles⟩ := subchunks_tiles map_ inv cs hcs
-  have h := foldE_tiles (subBody src map_ inv empty)
+  obtain ⟨subs, hsubs, htiles, hmono⟩ := subchunks_mono map_ inv cs hcs
+  have h := foldE_tiles_mem (subBody src map_ inv empty)
     (fun x b => b.length = buf.length ∧
       (∀ (p : Nat) (k : Int), p < x → map_[p]? = some k → ∃ v, lookup src inv empty k = some v ∧ b[p]? = some v))
     map_.length subs 0 buf htiles ⟨rfl, fun p k hp => by omega⟩
     (by
-      intro x y b _ hxy hy ⟨hlen, hdone⟩
-      obtain ⟨b', hrun, hlen', hout, hin⟩ := subBody_spec src map_ inv empty x y b hxy hy (by omega) hr hm
+      intro x y b hmem _ hxy hy ⟨hlen, hdone⟩
+      obtain ⟨b', hrun, hlen', hout, hin⟩ := subBody_spec src map_ inv empty x y b hxy hy (by omega) hr (hmono (x, y) hmem)
       refine ⟨b', hrun, by omega, ?_⟩
       intro p k hp hpk
       by_cases hpx : p < x
@@ -310,7 +312,7 @@ theorem nextChunk_eq (cur len d : Nat) : Join.nextChunk cur len d = (cur, min (c
     rw [this]
 
 theorem chunkBody_spec {α} (src : List α) (m : List Int) (inv : Int) (cs : Nat) (empty : α) (s : St α)
-    (hcs : 1 ≤ cs) (hr : InRange src.length m inv) (hm : ValidMonotone m inv)
+    (hcs : 1 ≤ cs) (hr : InRange src.length m inv)
     (hI : ChunkInv src m inv cs empty s) (hg : s.lo < m.length) :
     ∃ s', chunkBody src m inv cs empty s = .ok s' ∧ ChunkInv src m inv cs empty s' ∧
       m.length - s'.lo < m.length - s.lo := by
@@ -318,7 +320,7 @@ theorem chunkBody_spec {α} (src : List α) (m : List Int) (inv : Int) (cs : Nat
   have hlen : (slice m s.lo s.hi).length = s.hi - s.lo := by
     simp only [slice_length]; omega
   obtain ⟨subs, buf', hsubs, hfold, hlen', hrows⟩ :=
-    chunk_fold_spec src (slice m s.lo s.hi) inv cs empty s.buf hcs (by rw [hlen]; omega) (inRange_slice hr _ _) (validMonotone_slice hm _ _)
+    chunk_fold_spec src (slice m s.lo s.hi) inv cs empty s.buf hcs (by rw [hlen]; omega) (inRange_slice hr _ _)
   refine ⟨⟨s.hi, min (s.hi + cs) m.length, buf', s.out ++ buf'.take (s.hi - s.lo)⟩, ?_, ?_, ?_⟩
   · simp only [chunkBody, hsubs, hfold, nextChunk_eq]
   · refine ⟨by simp only []; omega, rfl, by simp only []; omega, ?_⟩
@@ -337,16 +339,17 @@ theorem chunkBody_spec {α} (src : List α) (m : List Int) (inv : Int) (cs : Nat
       simp [hp, hv2]
   · simp only []; omega
 
-/-- `ordered_map_valid_stream` = `mapSpec`, for every chunk size ≥ 1 and every marker -/
-theorem stream_spec {α} (src : List α) (m : List Int) (inv : Int) (cs : Nat) (empty : α)
-    (hcs : 1 ≤ cs) (hr : InRange src.length m inv) (hm : ValidMonotone m inv) :
+/-- `ordered_map_valid_stream` = `mapSpec`, for every chunk size ≥ 1, every marker and EVERY in-range map — ordered or
+    not (NC02a: the map of the non-driving side of a join with duplicate keys on both sides is not ordered) -/
+theorem stream_spec_any {α} (src : List α) (m : List Int) (inv : Int) (cs : Nat) (empty : α)
+    (hcs : 1 ≤ cs) (hr : InRange src.length m inv) :
     ∃ out, orderedMapValidStream src m inv cs empty = .ok out ∧ mapSpec src inv empty m = some out := by
   have h := whileE_rule (fun s : St α => decide (s.lo < m.length)) (chunkBody src m inv cs empty)
     (ChunkInv src m inv cs empty) (fun s => m.length - s.lo)
     (by
       intro s hI hg
       have hg' : s.lo < m.length := by simpa using hg
-      exact chunkBody_spec src m inv cs empty s hcs hr hm hI hg')
+      exact chunkBody_spec src m inv cs empty s hcs hr hI hg')
     m.length ⟨0, min (0 + cs) m.length, List.replicate cs empty, []⟩
     ⟨by simp, rfl, by simp, by simp [mapSpec]⟩ (by simp)
   obtain ⟨s', hrun, ⟨hlo, _, _, hout⟩, hg⟩ := h
@@ -356,5 +359,11 @@ theorem stream_spec {α} (src : List α) (m : List Int) (inv : Int) (cs : Nat) (
   · simp only [orderedMapValidStream, nextChunk_eq, hrun]
   · rw [heq, List.take_length] at hout
     exact hout
+
+/-- the ordered-map form (kept for its users; the ordering hypothesis is no longer needed) -/
+theorem stream_spec {α} (src : List α) (m : List Int) (inv : Int) (cs : Nat) (empty : α)
+    (hcs : 1 ≤ cs) (hr : InRange src.length m inv) (_hm : ValidMonotone m inv) :
+    ∃ out, orderedMapValidStream src m inv cs empty = .ok out ∧ mapSpec src inv empty m = some out :=
+  stream_spec_any src m inv cs empty hcs hr
 
 end Exetera.MapValid
